@@ -52,7 +52,7 @@ PROPS = {
         "trusted_base": COMMON_TB + ["units/num/prelude.rs (see C10)", "extractor edit D5: textual instantiation of from_f64!/from_for_isize!/try_from_impl!",
                                       "units/lent/prelude.rs: parking_lot RwLock / Mutex as RefCell-backed cells with the same guard API, reduced SteelVal, CustomReference / ReferenceCustomType traits restated; std Arc / Weak / AtomicBool / core::any executed as they are"],
         "assumptions": [
-            "containers, strings, registered structs are NOT covered; of the lent-reference half: the nursery's stack discipline (free_n / free_all / drain) and, for MUTABLE lent references, the use-time check (weak upgrade fails after the call; child-borrow flag and borrow count exclude a mutable use) are decided - read-only lent references (ReadOnlyBorrowedObject / ReadOnlyTemporary), the register_fn wrappers that set and clear the flags and LifetimeGuard are NOT covered",
+            "containers, strings, registered structs are NOT covered; of the lent-reference half: the nursery's stack discipline (free_n / free_all / drain) and, for MUTABLE lent references, the use-time check (weak upgrade fails after the call; child-borrow flag and borrow count exclude a mutable use) and read-only lent references (ReadOnlyBorrowedObject / ReadOnlyTemporary: usable during the call, an error value after it) are decided - the register_fn wrappers that set and clear the flags and LifetimeGuard are NOT covered",
             "RegisterFn wrappers: the two macro families impl_register_fn! / impl_register_fn_self! at arities 1, 2, 3 and 16; the async / context / rest-args wrappers and the #[steel_derive::function] generated checks are NOT covered",
         ],
         "explanation": "integer/float/char/bool/unit/option conversions at the host boundary, full input domain",
